@@ -276,17 +276,32 @@ def r3_space_shifts(ctx):
     # columns are orthonormal), as polynomial identities modulo sign(x)^2 = 1 and norm(x)^2 = sum x_i^2 - whatever the way it is written
     from ..domains.symlin import householder_obligations, SymUnsupported, Refused
     cases = [(m, 3, k) for m in ("scalar", "diagonal") for k in (0, 1, 2)] + [("full", 2, 0), ("full", 2, 1), ("full", 3, 1)]
+    cases += [(m, 2, k) for m in ("scalar", "diagonal") for k in (0, 1)]  # the smallest model with a source
     if ctx.tier == "thorough":
         cases += [("diagonal", 4, 0), ("diagonal", 4, 3), ("full", 3, 0), ("full", 3, 2)]
+    # a size the body singles out (`if dimension == 2: ...`) is a case of its own, for every kind of metric
+    singled = sorted({c_.value for n_ in ast.walk(f.node) if isinstance(n_, ast.Compare) for c_ in [n_.left] + list(n_.comparators)
+                      if isinstance(c_, ast.Constant) and isinstance(c_.value, int) and not isinstance(c_.value, bool) and 2 <= c_.value <= 6})
+    for n_ in singled:
+        for m in ("scalar", "diagonal", "full"):
+            for k in (0, n_ - 1):
+                if (m, n_, k) not in cases:
+                    cases.append((m, n_, k))
     decided = True
     for metric, n, k in cases:
         inst = f"{metric} metric, dimension {n}, stripped column {k}"
         try:
             r = householder_obligations(f.node, n, k, metric)
         except SymUnsupported as e:
-            decided = False
-            ctx.extra.setdefault("C10.R3_symbolic_fallback", str(e)[:200])
-            break
+            if "budget" in str(e) or "too large" in str(e):
+                # the algebra did not finish in its budget (loaded machine): fall back to the confirmed textual form of the reflection
+                decided = False
+                ctx.extra.setdefault("C10.R3_symbolic_fallback", str(e)[:200])
+                break
+            # the body contains something the symbolic tensors do not model on the path of this case: not decided (the textual form of the
+            # reflection says nothing about another return path)
+            ctx.unknown("C10.R3", f, f.node, f"{inst}: the body is outside the symbolic subset ({str(e)[:100]})", construct="orthogonality to G*v", instance=inst)
+            continue
         except Refused as e:
             ctx.unknown("C10.R3", f, f.node, f"{inst}: the function refuses a valid configuration ({e})", construct="orthogonality to G*v", instance=inst)
             continue
